@@ -43,6 +43,11 @@ def generate(rng, n, tier):
                 key = "pop" if o["op"] in ("SetRandomInitialPoints", "SetInitialPoints") else o["op"]
                 if key not in seen:
                     seen.add(key); cfg2.append(o)
+            if rng.random() < 0.35:
+                # start points drawn from numpy's generator: no other configuration call may consume random numbers, whatever the order
+                for o in cfg2:
+                    if o["op"] == "SetInitialPoints":
+                        o["how"], o["var"] = "multinormal", rng.choice([0.25, 1.0])
             perms = []
             for _ in range(rng.choice([3, 4, 5])):
                 p = list(range(len(cfg2))); rng.shuffle(p); perms.append(p)
@@ -69,12 +74,13 @@ def generate(rng, n, tier):
                        how=rng.choice(["buckshot", "multinormal", "de"]), cost=G.gen_cost(rng, 2))
         else:
             ndim = rng.choice([1, 2])
+            unset = rng.random() < 0.3       # the generation limit left to the defaults (of the members, in every mode): only evaluations are limited
             yield dict(kind="ensemble", ens=rng.choice(["lattice", "buckshot"]), nested=rng.choice(["NM", "POW"]), ndim=ndim,
                        nbins=[rng.choice([1, 2, 3]) for _ in range(ndim)], npts=rng.choice([2, 3, 5]),
                        lo=[-2.0] * ndim, hi=[rng.choice([2.0, 3.0, 0.5, -0.5])] * ndim, cost=G.gen_cost(rng, ndim), seed=rng.randrange(10 ** 6),
-                       maxiter=rng.choice([3, 5, 8]), mapseed=rng.randrange(10 ** 6),
+                       maxiter=None if unset else rng.choice([3, 5, 8]), maxfun=rng.choice([40, 70]) if unset else None, mapseed=rng.randrange(10 ** 6),
                        inst=rng.random() < 0.5,          # the nested solver given as a configured instance rather than a class
-                       cfgperms=[rng.sample(range(5), 5) for _ in range(3)])
+                       cfgperms=[rng.sample(range(6), 6) for _ in range(3)], cons6=True)
 
 
 def make_map(kind, seed):
@@ -173,6 +179,10 @@ def _run_with_map(case, mp):
         L.REG.pop(tag, None)
 
 
+def _ident(x):
+    return x
+
+
 class _Cost(object):
     def __init__(self, spec):
         self.spec, self._f = spec, None
@@ -188,18 +198,21 @@ def _run_ensemble(case):
     from mystic.solvers import LatticeSolver, BuckshotSolver, NelderMeadSimplexSolver, PowellDirectionalSolver
     from mystic.termination import VTR
     nested = {"NM": NelderMeadSimplexSolver, "POW": PowellDirectionalSolver}[case["nested"]]
-    def build(mp, perm=(0, 1, 2, 3, 4)):
+    def build(mp, perm=None):
+        perm = perm if perm is not None else tuple(range(6 if case.get("cons6") else 5))
         random.seed(case["seed"]); np.random.seed(case["seed"] % (2 ** 31))
         s = LatticeSolver(case["ndim"], case["nbins"]) if case["ens"] == "lattice" else BuckshotSolver(case["ndim"], case["npts"])
         def inner():          # a fully configured member (the ensemble hands an instance on as it is)
             m = nested(case["ndim"])
-            m.SetEvaluationLimits(generations=case["maxiter"]); m.SetTermination(VTR(-1.0)); m.SetObjective(_Cost(case["cost"]))
+            m.SetEvaluationLimits(generations=case["maxiter"], evaluations=case.get("maxfun")); m.SetTermination(VTR(-1.0)); m.SetObjective(_Cost(case["cost"]))
             return m
         calls = [lambda: s.SetNestedSolver(inner() if case.get("inst") else nested),
                  lambda: s.SetStrictRanges(list(case["lo"]), list(case["hi"])),
-                 lambda: s.SetEvaluationLimits(generations=case["maxiter"]),
+                 lambda: s.SetEvaluationLimits(generations=case["maxiter"], evaluations=case.get("maxfun")),
                  lambda: s.SetTermination(VTR(-1.0)),
                  lambda: s.SetObjective(_Cost(case["cost"]))]
+        if case.get("cons6"):
+            calls.append(lambda: s.SetConstraints(_ident))
         for i in perm:
             calls[i]()
         if mp is not None:
